@@ -892,6 +892,12 @@ fn oracles(w: &mut World, pre_lower: &[usize], out: &mut String) {
     for o in 0..n {
         if reach[o] && (w.objs[o].destroyed || w.objs[o].freed) {
             fails.push(format!("O1:reachable-object-{}-destroyed", o));
+            // the same event read as a count (C06): handles to `o` exist — the ledger counts `strong[o]` of them,
+            // held by the program or by live values — yet its strong count reads 0.  Only under the adoption
+            // contract (as O1 itself); m94 drifts a Forward count until a held object is decremented to zero
+            if strong[o] > 0 && contract_now && w.contract_ok {
+                fails.push(format!("O6:held-object-{}-destroyed-with-{}-handles", o, strong[o]));
+            }
         }
     }
     for (i, h) in w.roots.iter().enumerate() {
